@@ -222,7 +222,7 @@ var props = map[string]*PropSpec{
 	},
 	"C02": {
 		Level:        "exploration",
-		Scens:        []ScenSpec{{ID: "C02", QuickRuns: 2000, QuickSecs: 90, ThoroughRuns: 100000, ThoroughSecs: 900}},
+		Scens:        []ScenSpec{{ID: "C02", QuickRuns: 6000, QuickSecs: 150, ThoroughRuns: 100000, ThoroughSecs: 900}},
 		CoverageRule: "each run = a generated concurrency quota (max 1-3, expiry 2-5 s, GC 1-2 s, optional parent quota, optional second flow answering early after admission) in the real streams engine and a seeded history of request / response / proxy-error / abandon / duplicate-end / instance-left events with clock targets around expiry and expiry+GC, single or in concurrent groups interleaved at instrumented lock sites; capacity probes measure free slots at quiescent points; non-trivial = at least one refusal or early answer occurred; distinct = schedule signatures among non-trivial runs",
 		Assumptions: []string{
 			"a slot must be held until request_expiration_sec (+10 ms) after admission unless released, and may be held until one GC interval (+1 s slack) later",
